@@ -84,39 +84,39 @@ Eval(e, st, eager) ==
     CASE e.k = "num" -> R(e.v, st, e.bad, FALSE)
       [] e.k = "var" -> LET x == Read(st, e.n) IN R(x.v, st, x.f, FALSE)
       [] e.k = "un"  ->
-           LET a == Eval(e.a, st, eager) IN
+           LET a == TLCEval(Eval(e.a, st, eager)) IN
            R(CASE e.op = "+" -> a.v [] e.op = "-" -> Neg(a.v) [] e.op = "~" -> Not64(a.v) [] OTHER -> Bool(a.v = Zero), a.st, a.f, a.u)
       [] e.k = "bin" ->
-           LET a == Eval(e.a, st, eager)
-               b == Eval(e.b, a.st, eager)
+           LET a == TLCEval(Eval(e.a, st, eager))
+               b == TLCEval(Eval(e.b, a.st, eager))
            IN  IF a.f THEN R(Zero, a.st, TRUE, a.u \/ b.u)                 \* nothing is assigned after the first fault
                ELSE IF b.f THEN R(Zero, b.st, TRUE, a.u \/ b.u)
-               ELSE LET c == Calc(e.op, a.v, b.v) IN R(c.v, b.st, c.f, a.u \/ b.u \/ c.u)
+               ELSE LET c == TLCEval(Calc(e.op, a.v, b.v)) IN R(c.v, b.st, c.f, a.u \/ b.u \/ c.u)
       [] e.k \in {"and", "or"} ->
-           LET a == Eval(e.a, st, eager)
+           LET a == TLCEval(Eval(e.a, st, eager))
                decided == IF e.k = "and" THEN a.v = Zero ELSE a.v # Zero
            IN  IF a.f THEN R(Zero, a.st, TRUE, a.u)
                ELSE IF decided /\ ~eager THEN R(Bool(e.k = "or"), a.st, FALSE, a.u)         \* the right operand is not evaluated
-               ELSE LET b == IF decided THEN Skipped(e.b, a.st) ELSE Eval(e.b, a.st, eager) IN
+               ELSE LET b == TLCEval(IF decided THEN Skipped(e.b, a.st) ELSE Eval(e.b, a.st, eager)) IN
                     IF b.f THEN R(Zero, b.st, TRUE, a.u \/ b.u)
                     ELSE R(IF decided THEN Bool(e.k = "or") ELSE Bool(b.v # Zero), b.st, FALSE, a.u \/ b.u)
       [] e.k = "tern" ->
-           LET c == Eval(e.c, st, eager) IN
+           LET c == TLCEval(Eval(e.c, st, eager)) IN
            IF c.f THEN R(Zero, c.st, TRUE, c.u)
            ELSE IF ~eager
-                THEN LET x == Eval(IF c.v # Zero THEN e.a ELSE e.b, c.st, eager) IN R(x.v, x.st, x.f, c.u \/ x.u)
-                ELSE LET a == IF c.v # Zero THEN Eval(e.a, c.st, eager) ELSE Skipped(e.a, c.st)
-                         b == IF c.v # Zero THEN Skipped(e.b, IF a.f THEN c.st ELSE a.st) ELSE Eval(e.b, IF a.f THEN c.st ELSE a.st, eager)
+                THEN LET x == TLCEval(Eval(IF c.v # Zero THEN e.a ELSE e.b, c.st, eager)) IN R(x.v, x.st, x.f, c.u \/ x.u)
+                ELSE LET a == TLCEval(IF c.v # Zero THEN Eval(e.a, c.st, eager) ELSE Skipped(e.a, c.st))
+                         b == TLCEval(IF c.v # Zero THEN Skipped(e.b, IF a.f THEN c.st ELSE a.st) ELSE Eval(e.b, IF a.f THEN c.st ELSE a.st, eager))
                      IN  IF a.f THEN R(Zero, a.st, TRUE, c.u \/ a.u)
                          ELSE IF b.f THEN R(Zero, b.st, TRUE, c.u \/ a.u \/ b.u)
                          ELSE R(IF c.v # Zero THEN a.v ELSE b.v, b.st, FALSE, c.u \/ a.u \/ b.u)
       [] e.k = "asg" ->
-           LET a == Eval(e.a, st, eager) IN
+           LET a == TLCEval(Eval(e.a, st, eager)) IN
            IF a.f THEN R(Zero, a.st, TRUE, a.u)
            ELSE IF e.op = "=" THEN R(a.v, Assign(a.st, e.n, a.v), FALSE, a.u)
            ELSE LET x == Read(a.st, e.n) IN
                 IF x.f THEN R(Zero, a.st, TRUE, a.u)
-                ELSE LET c == Calc(BaseOp(e.op), x.v, a.v) IN
+                ELSE LET c == TLCEval(Calc(BaseOp(e.op), x.v, a.v)) IN
                      IF c.f THEN R(Zero, a.st, TRUE, a.u \/ c.u)
                      ELSE R(c.v, Assign(a.st, e.n, c.v), FALSE, a.u \/ c.u)
       [] e.k = "inc" ->
@@ -125,7 +125,7 @@ Eval(e, st, eager) ==
            ELSE LET nv == IF e.op \in {"++x", "x++"} THEN Add(x.v, One) ELSE Sub(x.v, One) IN
                 R(IF e.op \in {"++x", "--x"} THEN nv ELSE x.v, Assign(st, e.n, nv), FALSE, FALSE)
       [] OTHER ->   \* assignment to a non-lvalue: a fault; nothing is assigned
-           LET a == Eval(e.a, st, eager) b == Eval(e.b, IF a.f THEN st ELSE a.st, eager) IN
+           LET a == TLCEval(Eval(e.a, st, eager)) b == TLCEval(Eval(e.b, IF a.f THEN st ELSE a.st, eager)) IN
            R(Zero, IF a.f THEN a.st ELSE IF b.f THEN b.st ELSE b.st, TRUE, a.u \/ b.u)
 
 (***************************************************************************)
@@ -155,6 +155,16 @@ Prec(e) == CASE e.k \in {"num", "var", "inc"} -> 15
                                   [] e.op \in {"<", ">", "<=", ">="} -> 10 [] e.op \in {"==", "!="} -> 9
                                   [] e.op = "&" -> 8 [] e.op = "^" -> 7 [] OTHER -> 6)
              [] e.k = "and" -> 5 [] e.k = "or" -> 4 [] e.k = "tern" -> 3 [] OTHER -> 2
+
+(* the same text without blanks, except where two tokens would fuse (+ +, - -, & &, | |, < <, > >, = =, ! =, operator =) *)
+OpChar(c) == c \in {"+", "-", "&", "|", "<", ">", "=", "!", "*", "/", "%", "^", "~", "?", ":"}
+RECURSIVE TightFrom(_, _)
+TightFrom(t, i) ==
+    IF i > Len(t) THEN ""
+    ELSE IF t[i] = " " /\ i > 1 /\ i < Len(t) /\ ~(OpChar(t[i - 1]) /\ OpChar(t[i + 1])) THEN TightFrom(t, i + 1)
+    ELSE t[i] \o TightFrom(t, i + 1)
+Chars(str) == [i \in 1..Len(str) |-> SubSeq(str, i, i)]
+Tight(str) == TightFrom(TLCEval(Chars(str)), 1)
 
 RECURSIVE Text(_, _)
 LV(n, full) == IF full THEN "(" \o n \o ")" ELSE n
